@@ -10,3 +10,4 @@ scenarios, jobs, confirm, info = e3check.make('C19', QUICK, THOROUGH,
     'created and notifying the parent reaches all children - a parent left locked would make those calls block, which the scheduler oracle reports. nsync_counter_new likewise (all 2^32 initial values).',
     ['nsync_note_new', 'nsync_note_is_notified', 'nsync_note_notified_deadline_', 'nsync_note_notify', 'notify', 'note_notify_child', 'nsync_counter_new', 'nsync_counter_value'],
     ['deadline-expired children (the lazy-expiry notify inside nsync_note_notified_deadline_ is asserted unreachable: deadlines are in the future of the frozen clock)', 'nsync_malloc_ptr_ allocators'])
+WORKERS = 5     # each query needs 2-10 GB (cbmc + kissat): bounded parallelism keeps the machine out of swap / the OOM killer
